@@ -1,11 +1,16 @@
 package main
 
 import (
+	"bytes"
 	"encoding/json"
 	"fmt"
 	"io"
 	"os"
+	"os/exec"
+	"sort"
+	"strconv"
 	"strings"
+	"time"
 
 	"github.com/formancehq/numscript/internal/analysis"
 	"github.com/formancehq/numscript/internal/lsp"
@@ -60,6 +65,183 @@ func rawParams(v any) *json.RawMessage {
 
 func lspRange(r lsp.Range) string {
 	return fmt.Sprintf("(R %d %d %d %d)", r.Start.Line, r.Start.Character, r.End.Line, r.End.Character)
+}
+
+// lspRequestOf builds the JSON-RPC request of one history entry (the same for the in-process and the
+// wire runs). Requests that expect an answer get an id, notifications none.
+func lspRequestOf(texts []string, hist []lspReq, i int) jsonrpc2.Request {
+	rq := hist[i]
+	req := jsonrpc2.Request{}
+	switch rq.Op {
+	case "open":
+		req.Method = "textDocument/didOpen"
+		req.Notif = true
+		req.Params = rawParams(map[string]any{"textDocument": map[string]any{"uri": rq.URI, "text": texts[rq.Tid], "languageId": "numscript", "version": 1}})
+	case "change":
+		req.Method = "textDocument/didChange"
+		req.Notif = true
+		changes := []any{}
+		for k := 0; k < (rq.Tid+len(rq.URI)+len(hist))%3; k++ {
+			changes = append(changes, map[string]any{"text": texts[(rq.Tid+1+k)%len(texts)]})
+		}
+		changes = append(changes, map[string]any{"text": texts[rq.Tid]})
+		req.Params = rawParams(map[string]any{"textDocument": map[string]any{"uri": rq.URI, "version": 2}, "contentChanges": changes})
+	case "hover":
+		req.Method = "textDocument/hover"
+		req.ID = jsonrpc2.ID{Num: uint64(i + 1)}
+		req.Params = rawParams(map[string]any{"textDocument": map[string]any{"uri": rq.URI}, "position": map[string]any{"line": rq.Line, "character": rq.Char}})
+	case "def":
+		req.Method = "textDocument/definition"
+		req.ID = jsonrpc2.ID{Num: uint64(i + 1)}
+		req.Params = rawParams(map[string]any{"textDocument": map[string]any{"uri": rq.URI}, "position": map[string]any{"line": rq.Line, "character": rq.Char}})
+	default:
+		req.Method = "textDocument/documentSymbol"
+		req.ID = jsonrpc2.ID{Num: uint64(i + 1)}
+		req.Params = rawParams(map[string]any{"textDocument": map[string]any{"uri": rq.URI}})
+	}
+	return req
+}
+
+// canonJSON: keys sorted (encoding/json does that for maps) and every array of objects sorted by
+// content - symbols and diagnostics come out of Go maps, in no particular order
+func canonJSON(v any) any {
+	switch x := v.(type) {
+	case map[string]any:
+		for k, e := range x {
+			x[k] = canonJSON(e)
+		}
+		return x
+	case []any:
+		objs := true
+		for i, e := range x {
+			x[i] = canonJSON(e)
+			if _, ok := x[i].(map[string]any); !ok {
+				objs = false
+			}
+		}
+		if objs {
+			keys := make([]string, len(x))
+			for i, e := range x {
+				b, _ := json.Marshal(e)
+				keys[i] = string(b)
+			}
+			sort.Sort(byKey{keys, x})
+		}
+		return x
+	}
+	return v
+}
+
+type byKey struct {
+	k []string
+	v []any
+}
+
+func (b byKey) Len() int           { return len(b.k) }
+func (b byKey) Less(i, j int) bool { return b.k[i] < b.k[j] }
+func (b byKey) Swap(i, j int)      { b.k[i], b.k[j] = b.k[j], b.k[i]; b.v[i], b.v[j] = b.v[j], b.v[i] }
+
+// framed messages of an LSP stream, each reduced to its JSON in canonical form
+func splitFrames(stream string) []string {
+	var out []string
+	for len(stream) > 0 {
+		idx := strings.Index(stream, "\r\n\r\n")
+		if idx < 0 {
+			out = append(out, "UNFRAMED:"+stream)
+			break
+		}
+		n := -1
+		for _, h := range strings.Split(stream[:idx], "\r\n") {
+			if strings.HasPrefix(strings.ToLower(h), "content-length:") {
+				n, _ = strconv.Atoi(strings.TrimSpace(h[len("content-length:"):]))
+			}
+		}
+		body := stream[idx+4:]
+		if n < 0 || n > len(body) {
+			out = append(out, "BADLENGTH:"+stream)
+			break
+		}
+		var v any
+		if json.Unmarshal([]byte(body[:n]), &v) != nil {
+			out = append(out, "BADJSON:"+body[:n])
+		} else {
+			b, _ := json.Marshal(canonJSON(v))
+			out = append(out, string(b))
+		}
+		stream = body[n:]
+	}
+	return out
+}
+
+// wireSame runs the history through the `numscript lsp` process - requests framed with
+// Content-Length on its stdin, everything it writes to stdout read back - and compares the stream of
+// messages with what the same requests produce in process (notifications written by the handlers,
+// then the response, request by request, as lsp/server.go frames them).
+func wireSame(texts []string, hist []lspReq) (same bool, detail string) {
+	bin := os.Getenv("VERIF_CLI")
+	if bin == "" {
+		return true, "no binary"
+	}
+	var in bytes.Buffer
+	var want []string
+	state := lsp.InitialState()
+	for i := range hist {
+		req := lspRequestOf(texts, hist, i)
+		b, _ := json.Marshal(req)
+		fmt.Fprintf(&in, "Content-Length: %d\r\n\r\n%s", len(b), b)
+		// what the server is expected to write for this request: it decodes the very bytes just framed
+		var dec jsonrpc2.Request
+		if dec.UnmarshalJSON(b) != nil {
+			return true, "request does not decode"
+		}
+		var ret any
+		pan := false
+		out := captureStdout(func() {
+			defer func() {
+				if recover() != nil {
+					pan = true
+				}
+			}()
+			ret = lsp.Handle(dec, &state)
+		})
+		if pan {
+			return true, "in-process panic (judged elsewhere)"
+		}
+		want = append(want, splitFrames(out)...)
+		rb, _ := json.Marshal(ret)
+		raw := json.RawMessage(rb)
+		resp, _ := json.Marshal(jsonrpc2.Response{ID: dec.ID, Result: &raw})
+		var v any
+		json.Unmarshal(resp, &v)
+		cb, _ := json.Marshal(canonJSON(v))
+		want = append(want, string(cb))
+	}
+	cmd := exec.Command(bin, "lsp")
+	cmd.Stdin = &in
+	var stdout bytes.Buffer
+	cmd.Stdout = &stdout
+	cmd.Stderr = io.Discard
+	done := make(chan error, 1)
+	if err := cmd.Start(); err != nil {
+		return true, "cannot start: " + err.Error()
+	}
+	go func() { done <- cmd.Wait() }()
+	select {
+	case <-done:
+	case <-time.After(20 * time.Second):
+		cmd.Process.Kill()
+		return false, "the server did not exit at end of input"
+	}
+	got := splitFrames(stdout.String())
+	if len(got) != len(want) {
+		return false, fmt.Sprintf("%d messages on the wire, %d expected", len(got), len(want))
+	}
+	for i := range got {
+		if got[i] != want[i] {
+			return false, fmt.Sprintf("message %d: wire %s, expected %s", i, got[i], want[i])
+		}
+	}
+	return true, fmt.Sprintf("%d messages", len(got))
 }
 
 // runLspHistory feeds the history to lsp.Handle and renders each observation as a Coq term.
@@ -245,7 +427,12 @@ func (c *Ctx) lspCase(texts []string, hist []lspReq, group string) {
 		short = append(short[:12], fmt.Sprintf("... (%d responses)", len(short)))
 	}
 	ci.Observed = strings.Join(short, " | ")
-	ci.Coq = fmt.Sprintf("(mk_c19case %s %s)", coqList(ts), coqList(hs))
+	wire, wireDetail := true, ""
+	if group == "wire" || group == "replay-wire" {
+		wire, wireDetail = wireSame(texts, hist)
+		ci.Extra["wire"] = wireDetail
+	}
+	ci.Coq = fmt.Sprintf("(mk_c19case %s %s %s)", coqList(ts), coqList(hs), coqBool(wire))
 	c.add(ci)
 }
 
@@ -300,7 +487,11 @@ func init() {
 					}
 				}
 			}
-			c.lspCase(texts, hist, "replay")
+			grp := "replay"
+			if g0, _ := c.replay.Extra["group"].(string); g0 == "wire" || g0 == "replay-wire" {
+				grp = "replay-wire"
+			}
+			c.lspCase(texts, hist, grp)
 			return
 		}
 		root := NewRand(c.seed)
@@ -329,7 +520,13 @@ func init() {
 					hist = append(hist, lspReq{Op: "syms", URI: u})
 				}
 			}
-			c.lspCase(texts, hist, "history")
+			if i%8 == 3 {
+				// the same history also through the real server process (framing, decoding, the loop of server.go)
+				c.lspCase(texts, hist, "wire")
+				c.count("wire_histories")
+			} else {
+				c.lspCase(texts, hist, "history")
+			}
 		}
 		if c.tier == "thorough" {
 			// exhaustive short histories over a small alphabet: 2 URIs x 2 texts, one position
